@@ -68,6 +68,15 @@ def snapshot():
         return {"wb": False, "err": repr(e)}
 
 
+def live_structs():
+    """White-box: the PyTreeDef objects bound to structure names in the current context."""
+    try:
+        stack = getattr(_storage._shape_storage, "memo_stack", [])
+        return dict(stack[-1][2]) if stack else {}
+    except Exception:  # pragma: no cover
+        return {}
+
+
 def bindings_text():
     """The public observation: jaxtyping.print_bindings() captured through the per-thread router."""
     st = seams.state()
